@@ -11,7 +11,7 @@ use vecdb::{
 use crate::{
     seqx::{Violation, guarded},
     tap,
-    vecx::{Elem, Model, Subject, VEC_NAME},
+    vecx::{Elem, Model, Subject, VEC_NAME, Val},
 };
 
 #[derive(Default)]
@@ -98,18 +98,20 @@ macro_rules! comp_extra_body {
     }};
 }
 
-struct Ctx<'a> {
-    viols: Vec<Violation>,
-    calls: u64,
-    class: &'a str,
-    situation: &'a str,
-    /// (start, name) of the regions that belong to the vector
-    db: rawdb::Database,
-    seen_sigs: BTreeSet<String>,
+pub struct Ctx<'a> {
+    pub viols: Vec<Violation>,
+    pub calls: u64,
+    pub class: &'a str,
+    pub situation: &'a str,
+    /// database whose regions belong to the vector (None: no access checking)
+    pub db: Option<rawdb::Database>,
+    pub seen_sigs: BTreeSet<String>,
+    /// property charged for wrong elements / panics
+    pub prop: &'a str,
 }
 
 impl<'a> Ctx<'a> {
-    fn push(&mut self, prop: &str, api: &str, div: &str, detail: String) {
+    pub fn push(&mut self, prop: &str, api: &str, div: &str, detail: String) {
         let signature = format!("{}|read:{api}|{}|{div}", self.class, self.situation);
         if self.seen_sigs.insert(signature.clone()) {
             self.viols.push(Violation {
@@ -127,6 +129,7 @@ impl<'a> Ctx<'a> {
         if evs.is_empty() {
             return;
         }
+        let Some(db) = self.db.clone() else { return };
         let names = [
             format!("{VEC_NAME}/usize"),
             format!("{VEC_NAME}/usize_pages"),
@@ -134,7 +137,7 @@ impl<'a> Ctx<'a> {
         ];
         let regions: Vec<(usize, usize)> = names
             .iter()
-            .filter_map(|n| self.db.get_region(n))
+            .filter_map(|n| db.get_region(n))
             .map(|r| {
                 let m = r.meta();
                 (m.start(), m.len())
@@ -179,13 +182,14 @@ impl<'a> Ctx<'a> {
             Ok(v) => Some(v),
             Err(p) => {
                 let loc = p.split(": ").next().unwrap_or("?").to_string();
-                self.push("C08", api, &format!("panic:{loc}"), p);
+                let prop = self.prop;
+                self.push(prop, api, &format!("panic:{loc}"), p);
                 None
             }
         }
     }
 
-    fn expect_eq<T: Elem>(&mut self, api: &str, what: &str, got: &[T], want: &[T]) {
+    fn expect_eq<T: Val>(&mut self, api: &str, what: &str, got: &[T], want: &[T]) {
         if got.len() != want.len() || got.iter().zip(want).any(|(a, b)| a.bits() != b.bits()) {
             let first = got
                 .iter()
@@ -207,7 +211,7 @@ impl<'a> Ctx<'a> {
         }
     }
 
-    fn expect_opt<T: Elem>(&mut self, api: &str, what: &str, got: Option<T>, want: Option<T>) {
+    fn expect_opt<T: Val>(&mut self, api: &str, what: &str, got: Option<T>, want: Option<T>) {
         if got.map(|x| x.bits()) != want.map(|x| x.bits()) {
             self.push(
                 "C08",
@@ -243,7 +247,7 @@ fn bounds(len: usize, stored: usize, page: usize, holes: &[usize]) -> Vec<usize>
 }
 
 /// The generic ReadableVec battery on `v`; `contents[i]` is None for a deleted slot.
-fn generic<T: Elem, R: ReadableVec<usize, T>>(
+pub fn generic<T: Val, R: ReadableVec<usize, T>>(
     cx: &mut Ctx,
     tag: &str,
     v: &R,
@@ -266,7 +270,8 @@ fn generic<T: Elem, R: ReadableVec<usize, T>>(
 
     if let Some(l) = cx.call(&api("len"), || v.len()) {
         if l != len {
-            cx.push("C08", &api("len"), "len", format!("len {l}, expected {len}"));
+            let p = cx.prop;
+            cx.push(p, &api("len"), "len", format!("len {l}, expected {len}"));
             return;
         }
     }
@@ -433,7 +438,7 @@ fn generic<T: Elem, R: ReadableVec<usize, T>>(
 }
 
 /// Cursor API (needs `Sized`).
-fn cursor_checks<T: Elem, R: ReadableVec<usize, T>>(
+pub fn cursor_checks<T: Val, R: ReadableVec<usize, T>>(
     cx: &mut Ctx,
     tag: &str,
     v: &R,
@@ -503,8 +508,9 @@ where
         calls: 0,
         class,
         situation,
-        db: v.db(),
+        db: Some(v.db()),
         seen_sigs: BTreeSet::new(),
+        prop: "C08",
     };
     let len = m.items.len();
     let stored = v.stored_len().min(len + 1);
@@ -518,7 +524,8 @@ where
     // --- the vector itself (sees buffered values, updates and deletions)
     // Cursor-based paths (cursor, default read_sorted) loop forever or panic on vectors with
     // deleted slots (F8); they are exercised there only in the dedicated exploration.
-    let cursor_ok = holes.is_empty() || holed_cursor;
+    let _ = holed_cursor;
+    let cursor_ok = true;
     generic(&mut cx, "", v, &m.items, &bset, cursor_ok);
     if cursor_ok {
         cursor_checks(&mut cx, "", v, &m.items, &bset);
